@@ -29,6 +29,7 @@ var (
 	histFlag  = flag.String("hist", "", "gateway history file (input)")
 	outFlag   = flag.String("out", "", "gateway trace file (output; appended to when -start > 0; empty = stdout)")
 	startFlag = flag.Int("start", 0, "skip histories with index < start")
+	multiFlag = flag.Int("multi", 1, "run groups of this many consecutive histories (same configuration) as concurrent sessions of one gateway")
 )
 
 // ---------------------------------------------------------------- input
@@ -358,6 +359,23 @@ func TestDrive(t *testing.T) {
 		defer out.Close()
 	}
 	tr := &trace{w: bufio.NewWriter(out)}
+	if *multiFlag > 1 {
+		for i := 0; i+*multiFlag <= len(hs); i += *multiFlag {
+			grp := hs[i : i+*multiFlag]
+			if grp[0].index < *startFlag {
+				continue
+			}
+			// announce the group first: after a crash the trace shows which histories were running
+			tr.linef("G %d %d", grp[0].index, grp[len(grp)-1].index)
+			if err := tr.w.Flush(); err != nil {
+				t.Fatal(err)
+			}
+			if p := bubble(t, func() { runGroup(grp, tr) }); p != nil {
+				fmt.Fprintf(os.Stderr, "drv_gw: group %d: %s\n", grp[0].index, oneLine(p))
+			}
+		}
+		return
+	}
 	for _, h := range hs {
 		if h.index < *startFlag {
 			continue
